@@ -131,6 +131,40 @@ def cases(draw, max_pt):
     return {'model': m, 'flags': flags}
 
 
+@st.composite
+def long_cases(draw):
+    """One base structure with 10-12 transitions (a password like 1!1!1!1!1! or five words) over variables of two groups each,
+    next to a short one: parse trees this long take other code paths than the two- or three-segment ones."""
+    from .c01 import FLAGSETS
+    fam = draw(st.sampled_from(['count', 'tenths', 'dyadic']))
+    kinds = draw(st.sampled_from([['D1', 'O1'], ['D1'], ['A1'], ['A1', 'D1'], ['D1', 'O1', 'Y1']]))
+    vars_ = {}
+    for nm in kinds:
+        ps = draw(S.prob_list(fam, 2))
+        vals = draw(S.values_for(nm, 2))
+        vars_[nm] = [[ps[0], [vals[0]]], [ps[1], [vals[1]]]]
+        if nm[0] == 'A':
+            cps = draw(S.prob_list(fam, 2))
+            vars_['C' + nm[1:]] = [[cps[0], ['L']], [cps[1], ['U']]]
+    per_tok = {nm: (2 if nm[0] == 'A' else 1) for nm in kinds}
+    toks, n_tr = [], 0
+    target = draw(st.integers(10, 11))
+    i = 0
+    while n_tr < target:
+        nm = kinds[i % len(kinds)]
+        toks.append(nm)
+        n_tr += per_tok[nm]
+        i += 1
+    base = sorted([[''.join(toks), draw(st.sampled_from([0.5, 0.6, 0.3]))], [kinds[0], 0.4]], key=lambda x: -x[1])
+    m = {'encoding': 'utf-8', 'uuid': 'c02-long', 'vars': vars_, 'base': base, 'm_levels': []}
+    return {'model': m, 'flags': dict(FLAGSETS[0])}
+
+
+def run_long(rec, seed, shard, nshards, tier):
+    n = {'quick': 3, 'thorough': 40}[tier]
+    core.hyp_run(rec, prop, long_cases(), n, seed, shrink=False)
+
+
 def run_random(rec, seed, shard, nshards, tier):
     n = {'quick': 250, 'thorough': 5000}[tier]
     core.hyp_run(rec, prop, cases(400 if tier == 'quick' else 2500), n, seed)
@@ -170,4 +204,5 @@ def run_grids(rec, seed, shard, nshards, tier):
 PARTS = [
     Part('random_rulesets', run_random, prop, {'quick': 8, 'thorough': 16}),
     Part('exhaustive_grids', run_grids, prop, {'quick': 8, 'thorough': 16}),
+    Part('long_structures', run_long, prop, {'quick': 3, 'thorough': 8}),
 ]
